@@ -322,6 +322,46 @@ def shutdown_grid(rng, count):
     return out
 
 
+def simultaneous_failures(rng, count):
+    """C02/C04/C05: several jobs of one scheduler raise in the same instant, with
+    mixed critical flags, under every iteration order; a successor waits behind them"""
+    out = []
+    while len(out) < count:
+        k = rng.randint(2, 5)
+        nested = rng.random() < 0.4
+        t = rng.choice([0, 1, 2])
+        group = [J() for _ in range(k)]
+        tail = [("J", sorted(rng.sample(range(k), rng.randint(1, k)))) for _ in range(rng.randint(1, 2))]
+        extra = [J() for _ in range(rng.randint(0, 2))]
+        members = group + tail + extra
+        shape = tree(S([J(), S(members, 0), J(1)])) if nested else tree(S(members))
+        kind, parent, _ = shape
+        n = len(kind)
+        inner = max(i for i in range(n) if kind[i] == "sched") + 1
+        mem = [i for i in range(n) if parent[i] == inner]
+        dur, outc, crit = [0] * n, ["ok"] * n, [False] * n
+        for idx, i in enumerate(mem):
+            if idx < k:
+                dur[i] = t
+                outc[i] = "exc" if rng.random() < 0.8 else "ok"
+                crit[i] = rng.random() < 0.4
+            elif idx < k + len(tail):
+                dur[i] = rng.choice([0, 1])
+            else:
+                dur[i] = rng.choice([t, t + 1, t + 2])
+        for i in range(n):
+            if kind[i] == "job" and parent[i] != inner:
+                dur[i] = rng.choice([0, 1])
+            if kind[i] == "sched":
+                crit[i] = rng.random() < 0.5
+        sc = _mk(rng, shape, dur=dur, out=outc, crit=crit,
+                 win=[rng.choice([0, 0, 0, 2, 3]) if kind[i] == "sched" else 0 for i in range(n)],
+                 cdur=[rng.choice([0, 0, 1]) for _ in range(n)], pure=rng.random() < 0.2)
+        sc["harness"]["k"] = [rng.choice([0, 0, 0, 1]) for _ in range(n)]
+        out.append(sc)
+    return out
+
+
 def nested_gap(rng, count):
     """C01/C10/C11: a job requires both a nested scheduler and a sibling that
     finishes while the nested run is winding down (cancelling its forever
@@ -375,11 +415,11 @@ def _reqs_everything(shape, i):
 
 STRUCTURED = {
     "C01": [(joins, 0.25), (small_perms, 0.1), (nested_gap, 0.15)],
-    "C02": [(tie_groups, 0.4)],
+    "C02": [(tie_groups, 0.3), (simultaneous_failures, 0.15)],
     "C03": [(window_failures, 0.4), (deadlines, 0.1)],
-    "C04": [(critical_instants, 0.2), (deadlines, 0.2), (crit_chains, 0.2)],
-    "C05": [(critical_instants, 0.5)],
-    "C06": [(window_failures, 0.3)],
+    "C04": [(critical_instants, 0.15), (deadlines, 0.2), (crit_chains, 0.15), (simultaneous_failures, 0.15)],
+    "C05": [(critical_instants, 0.4), (simultaneous_failures, 0.2)],
+    "C06": [(window_failures, 0.3), (simultaneous_failures, 0.1)],
     "C07": [(window_failures, 0.3), (tie_groups, 0.1), (critical_instants, 0.1)],
     "C08": [(deadlines, 0.5)],
     "C09": [(forevers, 0.5)],
